@@ -58,3 +58,32 @@ package eval
 //@ func evalForValue
 //@   trusted
 //@   results value err
+
+// ---------------------------------------------------------------------------
+// C17 sweep: builtins whose arguments come straight from the program. No
+// preconditions: every argument value must lead to a result or an exception.
+
+//@ func is
+//@   props C17
+//@   loop 1 invariant i <= len(args)
+//@ func eq
+//@   props C17
+//@   loop 1 invariant i <= len(args)
+//@ func notEq
+//@   props C17
+//@ func compare
+//@   props C17
+//@ func readBytes
+//@   props C17
+//@   loop 1 invariant 0 <= read && read <= max && len(buf) == max
+//@ func runParallel
+//@   props C17 C20
+
+//@ func Frame.InputFile
+//@   trusted
+//@   pure
+//@ func Frame.Fork
+//@   trusted
+//@ func MakePipelineError
+//@   trusted
+//@   pure
